@@ -169,7 +169,10 @@ False(sys) ==
     [] sys = "fac"   -> { Case(sys, FacPar, FacSt2(734), [p |-> 2, qq |-> 367, r |-> FacR(1)], "small_factor"),
                           Case(sys, FacPar, FacSt2(35), [p |-> 5, qq |-> 7, r |-> FacR(135)], "z_beyond") }
     [] sys = "alice" -> { Case(sys, MtaPar, [c |-> Enc(MtaPar, m, 2)], [m |-> m, r |-> 2, rn |-> AliceRn(5)], "plaintext_beyond_q3") : m \in {28, 30} }
-                        \cup { Case(sys, MtaPar, [c |-> Enc(MtaPar, 0, 2)], [m |-> 0, r |-> 2, rn |-> AliceRn(28)], "s1_beyond") }
+                        \cup { Case(sys, MtaPar, [c |-> Enc(MtaPar, 0, 2)], [m |-> 0, r |-> 2, rn |-> AliceRn(28)], "s1_beyond"),
+                               \* coins beyond their range that give the COMMITMENTS of the genuine run with alpha = 5, gamma = 100:
+                               \* alpha + N (Gamma has order N) and gamma + 5 (h1^35 * h2^5 = 4^45 = 1 modulo 77)
+                               Case(sys, MtaPar, [c |-> Enc(MtaPar, 0, 2)], [m |-> 0, r |-> 2, rn |-> [AliceRn(40) EXCEPT !.gamma = 105]], "s1_beyond") }
     [] sys = "bob"   -> { Case(sys, MtaPar, BobSt(x, 5), [x |-> x, y |-> 5, r |-> 3, rn |-> BobRn(13)], "multiplier_beyond_q3") : x \in {28, 34} }
                         \cup { Case(sys, MtaPar, BobSt(0, 0), [x |-> 0, y |-> 0, r |-> 3, rn |-> BobRn(28)], "s1_beyond") }
     [] sys = "bobwc" -> { Case(sys, MtaPar, BobSt(p[1], 5) @@ [X |-> p[2]], [x |-> p[1], y |-> 5, r |-> 3, rn |-> BobRn(13)], "point_mismatch") :
@@ -269,6 +272,11 @@ ToyFacts ==
        (\E g \in Genuine(s) : Args(s, g.par, g.st) = Args(s, c.par, c.st)) <=> (c.fam \in TrueStatementFam)
   \* colliding statements exist exactly where a boundary is named
   /\ \A s \in Sys : (Boundary(s) # 0) <=> (\E c \in Genuine(s) : Nbr(c) # {})
+  \* the out-of-range coins of alice / s1_beyond that reproduce the commitments of a genuine run do so, and are rejected
+  /\ ("alice" \in Sys) =>
+       \E g \in GenTab["alice"], f \in FalTab["alice"] :
+          /\ f.fam = "s1_beyond" /\ ArgsT(f) = ArgsT(g) /\ Commit("alice", f.pf) = Commit("alice", g.pf) /\ f.ch = g.ch
+          /\ f.pf # g.pf /\ Out(f) = "rej" /\ All(E_alice(f.par, f.st, f.pf, f.ch))
 
 (* Paillier operations (Encrypt, HomoMult, HomoAdd, Decrypt): the domain test must not depend on values that *)
 (* passed it before; the wrong design remembers residues                                                   *)
@@ -291,8 +299,12 @@ DomFacts ==
 CollideFamily(sys) ==
   CASE sys = "dln" -> "h2_outside_group" [] sys = "pai" -> "small_prime_factor" [] sys = "mod" -> "not_blum"
     [] sys = "fac" -> "small_factor" [] sys = "alice" -> "plaintext_beyond_q3" [] OTHER -> "multiplier_beyond_q3"
+(* families built with a coin beyond its range on a true statement: the coin can be chosen so that the commitments - hence *)
+(* the Fiat-Shamir input - are those of an accepted genuine run (size "same_commitments": the class (same, coins))      *)
+SameCommitFam == {"z_beyond", "s1_beyond", "t1_beyond"}
 HistRows ==
-  { [sys |-> f.sys, family |-> f.family, trips |-> f.trips, prover |-> f.prover, sizes |-> f.sizes,
+  { [sys |-> f.sys, family |-> f.family, trips |-> f.trips, prover |-> f.prover,
+     sizes |-> IF f.family \in SameCommitFam THEN Append(f.sizes, "same_commitments") ELSE f.sizes,
      hist |-> IF f.family \in TrueStatementFam THEN "same" ELSE "partial"] : f \in {x \in Families : x.sys \in Sys} }
   \cup { [sys |-> f.sys, family |-> f.family, trips |-> f.trips, prover |-> f.prover, sizes |-> <<"shift">>, hist |-> "collide"] :
            f \in {x \in Families : x.sys \in Sys /\ Boundary(x.sys) # 0 /\ x.family = CollideFamily(x.sys)} }
